@@ -586,6 +586,15 @@ def cell_centre_base_top_add_the_offset_in_every_dimension(ctx, kind):
 #   cl.getGlobalCoordinates() -> [17.62, 0.4, 0.5]   cl.getGlobalCellBase() -> [0.3, 0.4, 0.5]
 # VERIF_SHOW_KNOWN_DEFECTS=1 shows the violations.
 KNOWN_DEFECT_coordinate_location_global_cell_base_is_local = True
+# KNOWN DEFECT (candidate, found while writing this harness; unchanged tree): IndexLocation.getGlobalCellBase / -Top add
+# the parent's global cell BASE / TOP instead of the parent's global coordinates (the origin of a nested grid is the
+# parent's centre, as getGlobalCoordinates has it), so a nested cell grows by the parent's cell:
+#   top (with a parent) owns CartesianGrid.fromRectangle(10.0, 10.0); o1 at top.spatialGrid[3, 0, 0] owns
+#   CartesianGrid.fromRectangle(1.0, 1.0); pin = o1.spatialGrid[0, 0, 0]
+#   pin.getGlobalCoordinates() -> [30, 0, 0]; pin.getGlobalCellBase() -> [24.5, -5.5, 0]; getGlobalCellTop() -> [35.5, 5.5, 0]
+#   (a 1 cm cell reported 11 cm wide).  The z of a block in an assembly in a 2-D core grid is unaffected (base = centre = 0
+#   there).  While the flag is set the obligation is made for the outermost grid only.
+KNOWN_DEFECT_global_cell_base_adds_the_parents_cell_base = True
 NEST_KINDS = ("hex", "cart", "axial")
 
 
@@ -643,6 +652,14 @@ def three_deep_nestings_add_coordinates_always_and_indices_only_axial_in_radial(
             ctx.check_close("level %d (%s): global %s = own cell centre + parent's global coordinate" % (m + 1, kind, "xyz"[c]),
                             got[c], want, scale=sc)
         parentGlobal = [local[c] + parentGlobal[c] for c in range(3)]
+        if kind == "cart" and (m == 0 or _SHOW_KNOWN or not KNOWN_DEFECT_global_cell_base_adds_the_parents_cell_base):
+            # a rectangular cell seen from the global frame is the same rectangle about its global centre
+            gb, gt = loc.getGlobalCellBase(), loc.getGlobalCellTop()
+            for c, width in ((0, pq[m][0]), (1, pq[m][1])):
+                ctx.check_close("level %d (cart): global cell base %s = global centre - half the cell width" % (m + 1, "xy"[c]),
+                                gb[c], parentGlobal[c] - width / 2, scale=sc)
+                ctx.check_close("level %d (cart): global cell top %s = global centre + half the cell width" % (m + 1, "xy"[c]),
+                                gt[c], parentGlobal[c] + width / 2, scale=sc)
         # indices: the parent's are added only for an axial grid sitting in a non-axial one
         want = list(idx)
         if m > 0 and kind == "axial" and kinds[m - 1] != "axial":
